@@ -33,7 +33,6 @@ let ids_s l =
   if l = [] then "-"
   else String.concat "," (List.map string_of_int (List.sort compare l))
 
-let universe = [0; 1; 2; 3; 4; 5]
 
 let comp_tokstore : Registry.comp = fun _params ->
   let st = ref init_state in
@@ -53,6 +52,10 @@ let comp_tokstore : Registry.comp = fun _params ->
       | Some (x, _) -> Some x
       | None -> Some bad_stamp in
   let run o = let (s', out) = step !st o in st := s'; out in
+  let arun q = let (s', r) = api_step !st q in st := s'; r in
+  let hval_of_s s =
+    if s = "-" then None else if s = "*" then Some HStar
+    else match etag_of_s s with Some x -> Some (HTag x) | None -> None in
   fun toks ->
     match toks with
     | ["get"; n] ->
@@ -74,7 +77,8 @@ let comp_tokstore : Registry.comp = fun _params ->
     | ["ext"; c; s] -> ignore (run (OExternal (content_of c, stamp_of s))); "-"
     | ["restart"] -> ignore (run ORestart); "-"
     | ["repoint"] -> ignore (run ORepoint); "-"
-    | ["view"] ->
+    | ["view"; k] ->
+       let universe = List.init (int_of_string k) (fun i -> i) in
        let srv = List.filter (fun n -> (run (OGet (z_of_int n))).o_res = ROk) universe in
        let file =
          match (!st).s_file with
@@ -84,6 +88,22 @@ let comp_tokstore : Registry.comp = fun _params ->
             else if f.f_lines = [] then "e"
             else ids_s (List.map (function Rec t -> int_of_z t.tk_name | Junk -> -1) f.f_lines) in
        "srv=" ^ ids_s srv ^ " file=" ^ file
+    | ["aget"; g; n; im; inm] ->
+       let r = arun (AGet (z g, z n, hval_of_s im, hval_of_s inm)) in
+       (match r.a_toks with
+        | [t] when int_of_z r.a_status = 200 -> "200 " ^ etag_s r.a_etag ^ " " ^ tok_s t
+        | _ -> zs r.a_status ^ " - -")
+    | ["alist"; g] ->
+       let r = arun (AList (z g)) in
+       if int_of_z r.a_status = 200
+       then "200 " ^ etag_s r.a_etag ^ " " ^ ids_s (List.map (fun t -> int_of_z t.tk_name) r.a_toks)
+       else zs r.a_status ^ " - -"
+    | ["apost"; g; t; s] ->
+       zs (arun (APost (z g, tok_of t, stamp_of "0:0", stamp_of s))).a_status
+    | ["aput"; g; n; im; inm; t; s] ->
+       zs (arun (APut (z g, z n, hval_of_s im, hval_of_s inm, tok_of t, stamp_of "0:0", stamp_of s))).a_status
+    | ["adel"; g; n; im; inm; s] ->
+       zs (arun (ADelete (z g, z n, hval_of_s im, hval_of_s inm, stamp_of s))).a_status
     | _ -> failwith ("tokstore: bad op " ^ String.concat " " toks)
 
 (* histories that are checked by monitors only *)
